@@ -26,14 +26,10 @@ _UI_ONLY_KEYS = {"preprocessor_view"}
 
 
 def _strip_ui_only(obj: Any) -> Any:
+    # UI-only entries sit at the top level of the metadata mapping; deeper keys
+    # are user-chosen names (sweep variables, parameters) and must be kept.
     if isinstance(obj, dict):
-        return {
-            key: _strip_ui_only(value)
-            for key, value in obj.items()
-            if key not in _UI_ONLY_KEYS
-        }
-    if isinstance(obj, list):
-        return [_strip_ui_only(value) for value in obj]
+        return {key: value for key, value in obj.items() if key not in _UI_ONLY_KEYS}
     return obj
 
 
@@ -139,11 +135,18 @@ def compute_node_semantic_id(preproc_meta: Dict[str, Any]) -> str:
 
     payload = _strip_ui_only(preproc_meta)
 
-    def _canonicalize(obj: Any) -> Any:
+    def _canonicalize(obj: Any, path: Tuple[str, ...] = ()) -> Any:
         if isinstance(obj, dict):
-            return {k: _canonicalize(v) for k, v in obj.items() if k != "expr"}
+            # Raw expression text lives only at param_expressions.<param>.expr;
+            # a variable or parameter that is itself named "expr" is kept.
+            raw_expr_entry = len(path) == 2 and path[0] == "param_expressions"
+            return {
+                k: _canonicalize(v, path + (str(k),))
+                for k, v in obj.items()
+                if not (raw_expr_entry and k == "expr")
+            }
         if isinstance(obj, list):
-            return [_canonicalize(v) for v in obj]
+            return [_canonicalize(v, path + ("[]",)) for v in obj]
         return obj
 
     canonical = _canonicalize(payload)
